@@ -135,4 +135,9 @@ theorem getopt_render (opts : List SOpt) (items : List Item) (hv : ∀ it ∈ it
     simp only [List.flatMap_cons, List.map_cons]
     rw [parse_render opts it (hv it (by simp)), ih (fun x hx => hv x (by simp [hx]))]
 
+/-- the table of the correspondence run: a/alpha flag, b flag without long name, o/out required value, p/opt optional value -/
+def exTable : List SOpt :=
+  [⟨97, some [97, 108, 112, 104, 97], 0⟩, ⟨98, none, 0⟩, ⟨111, some [111, 117, 116], 1⟩, ⟨112, some [111, 112, 116], 3⟩]
+
+
 end Nstd.Args
